@@ -3,6 +3,7 @@ package blockstore
 import (
 	"context"
 	"fmt"
+	"io"
 	"os"
 
 	blocks "github.com/ipfs/go-block-format"
@@ -149,6 +150,11 @@ func OpenReadWriteFile(f *os.File, roots []cid.Cid, opts ...carv2.Option) (*Read
 	rwbs.ronly.idx = rwbs.idx
 
 	if resume {
+		// The version is read from the file's current offset, which is not the start when the
+		// caller has used the handle before, e.g. for an earlier session on the same file.
+		if _, err = f.Seek(0, io.SeekStart); err != nil {
+			return nil, err
+		}
 		if err = store.ResumableVersion(f, rwbs.opts.WriteAsCarV1); err != nil {
 			return nil, err
 		}
